@@ -138,6 +138,26 @@ def run_inprocess(case, wd, tag='x', serial=True, cpus=1, extensions=None, stdou
     return run
 
 
+def run_forked(case, wd, tag='x', **kw):
+    """M-serial in a forked child: module-level state of the code under test cannot leak between the runs that a
+    metamorphic / differential check compares (every real run is a fresh process). Returns files and error only."""
+    import json as _json
+    from vf.core import Shard, isolated
+    sh = Shard()
+
+    def child_fn(child):
+        run = run_inprocess(case, wd, tag, **kw)
+        child.samples.append({'files': run.files, 'error': run.error, 'argv': run.argv})
+    isolated(child_fn, sh)
+    run = Run()
+    if sh.samples:
+        d = sh.samples[0]
+        run.files, run.error, run.argv = d['files'], d['error'], d['argv']
+    else:
+        run.error = {'type': 'HarnessChildDied', 'msg': '; '.join(sh.inconclusive)[:300], 'frame': '?', 'tb': ''}
+    return run
+
+
 def run_cli(case, wd, tag='c', cpus=1, env=None, launcher=None, timeout=600, stdout_output=False, console_script=False,
             in_tag=None):
     """M-cli: the real entry point in a subprocess. in_tag: reuse input files written under that tag."""
